@@ -1,4 +1,5 @@
-SPECIFICATION Spec
+\* witness wanted (coarse schedule, replayable): RoundOnlyBelowLimit fails for the code as it is
+SPECIFICATION SpecB
 CONSTANTS
   Peers = {"p1", "p2", "p3"}
   Self = "self"
@@ -12,12 +13,13 @@ CONSTANTS
   MaxFail = 0
   MaxCalls = 0
   MaxApi = 0
-  WithGC = TRUE
+  WithGC = FALSE
   AtomicPeers = FALSE
   SignedWant = FALSE
   Serialized = FALSE
   DirectAPI = FALSE
-VIEW state
+  MaxLen = 200
 CHECK_DEADLOCK FALSE
-INVARIANTS TypeOK
+VIEW state
+ACTION_CONSTRAINT CoarseSchedule
 PROPERTIES RoundOnlyBelowLimit
